@@ -235,6 +235,11 @@ theorem txt_bytes : ∀ {r : Bytes}, Txt r → ∀ c ∈ r, isWordByteB c = true
     rcases List.mem_cons.mp hc with rfl | h
     · exact Or.inr (Or.inl rfl)
     · exact txt_bytes hr c h
+  | _, .numAt (w := w) hw _ hr, c, hc => by
+    rcases List.mem_append.mp hc with h | h
+    · have := List.all_eq_true.mp hw.2 c h
+      exact Or.inl (by simp [isWordByteB, this])
+    · exact txt_bytes hr c h
   | _, .punct hp hr, c, hc => by
     rcases List.mem_cons.mp hc with rfl | h
     · rcases hp with rfl | rfl <;> exact Or.inr (Or.inl rfl)
